@@ -3,6 +3,7 @@ package pkt
 import (
 	"fmt"
 	"math/big"
+	"time"
 
 	"verif/harness/core"
 )
@@ -176,4 +177,12 @@ func (s *Sim) RestoreRelayers(n *core.Node) {
 		n.App.XIBCKeeper.ClientKeeper.RegisterRelayers(n.Ctx(), r.Bech32(), chains, addrs)
 	}
 	s.logf("registry on %s restored", n.Name)
+}
+
+// ToggleRoundTrip: governance toggles the client n keeps for chain `of` to a TSS client and back to a fresh Tendermint
+// client (see core.World.ToggleRoundTrip). Relaying continues afterwards; receipts, acknowledgements and commitments stay.
+func (s *Sim) ToggleRoundTrip(n, of *core.Node) error {
+	err := s.W.ToggleRoundTrip(n, of, s.W.Admin, 14*24*time.Hour)
+	s.logf("client for %s on %s toggled to tss and back to tendermint (err=%v)", of.Name, n.Name, err)
+	return err
 }
